@@ -139,7 +139,9 @@ def avoid_collisions(context, box, containing_block, outer=True):
     box_height = box.margin_height() if outer else box.border_height()
 
     if box.border_height() == 0 and box.is_floated():
-        return 0, 0, containing_block.width
+        return (
+            containing_block.content_box_x(), position_y,
+            containing_block.width)
 
     while True:
         colliding_shapes = []
